@@ -24,6 +24,24 @@ std::vector<std::string> init_mathml_printer_names()
     return names;
 }
 
+// character data must not contain '<' or '&' ('>' is escaped for symmetry)
+static std::string xml_escape(const std::string &name)
+{
+    std::string out;
+    for (char c : name) {
+        if (c == '&') {
+            out += "&amp;";
+        } else if (c == '<') {
+            out += "&lt;";
+        } else if (c == '>') {
+            out += "&gt;";
+        } else {
+            out += c;
+        }
+    }
+    return out;
+}
+
 void MathMLPrinter::bvisit(const Basic &x)
 {
     throw SymEngineException("Error: not supported");
@@ -31,7 +49,7 @@ void MathMLPrinter::bvisit(const Basic &x)
 
 void MathMLPrinter::bvisit(const Symbol &x)
 {
-    s << "<ci>" << x.get_name() << "</ci>";
+    s << "<ci>" << xml_escape(x.get_name()) << "</ci>";
 }
 
 void MathMLPrinter::bvisit(const Integer &x)
@@ -293,7 +311,7 @@ void MathMLPrinter::bvisit(const UnevaluatedExpr &x)
 
 void MathMLPrinter::bvisit(const FunctionSymbol &x)
 {
-    s << "<apply><ci>" << x.get_name() << "</ci>";
+    s << "<apply><ci>" << xml_escape(x.get_name()) << "</ci>";
     const auto &args = x.get_args();
     for (const auto &arg : args) {
         arg->accept(*this);
